@@ -28,6 +28,7 @@ const (
 	abDeadAfterViolation
 	abHalt
 	abBlocked // the running goroutine cannot make progress (channel operation with no partner)
+	abKilled  // the path is over: an interpreted goroutine other than the harness goroutine is being unwound
 )
 
 // pathAbort ends the current path (panics through all frames without running target defers).
@@ -83,6 +84,12 @@ type ObsOut struct {
 type Exec struct {
 	W  *Worker
 	tb *TB
+
+	sched      *scheduler
+	timers     []*modelTimer
+	timerByPtr map[*value]*modelTimer
+	locks      map[*value]*lockState
+	wgs        map[*value]*int
 
 	fmtSym   Str // symbolic Error()/String() text of the operand toNative last gave up on
 	fmtSymOK bool
